@@ -768,6 +768,15 @@ func ruleTxErr(c *core.Ctx, rule string, fn *ssa.Function) int {
 				c.Hold(rule, construct, "error returned directly to the caller")
 				return
 			}
+			// `return wrap(err)`: the error's only use is as argument of a call whose result is returned
+			if refs := ev.Referrers(); refs != nil && len(*refs) == 1 {
+				if wc, ok := (*refs)[0].(*ssa.Call); ok {
+					if _, isRet := directReturnOf(wc); isRet {
+						c.Hold(rule, construct, "error handed to "+core.CallName(wc)+" whose result is returned")
+						return
+					}
+				}
+			}
 			errEdges := core.NilEdgesRes(f, ev, false)
 			if len(errEdges) == 0 {
 				c.Violate(rule, construct, call.Pos(), "the error result of the SQL write is never tested")
